@@ -252,7 +252,12 @@ class Loader(yaml.SafeLoader):
                 for attr_name, type_, _ in class_subobjects(recognized_type):
                     cnode = Node(node)
                     if cnode.has_attribute(attr_name):
-                        subnode = cnode.get_attribute(attr_name)
+                        try:
+                            subnode = cnode.get_attribute(attr_name)
+                        except SeasoningError:
+                            raise RecognitionError((
+                                '{}\nFound a duplicate key "{}"').format(
+                                    node.start_mark, attr_name))
                         new_subnode = self.__process_node(
                             subnode.yaml_node, type_)
                         cnode.set_attribute(attr_name, new_subnode)
